@@ -117,7 +117,7 @@ int main (int argc, char **argv)
 	{	int chs [8], nch, format = vh_fmts [f].format ;
 		if (vh_fmts [f].major == SF_FORMAT_SD2) continue ;
 		nch = vh_channels_for (format, chs, 8, vh_thorough) ;
-		for (c = 0 ; c < nch ; c++) for (k = 0 ; k < (vh_thorough ? 12 : 4) ; k++)
+		for (c = 0 ; c < nch ; c++) for (k = 0 ; k < (vh_thorough ? 80 : 8) ; k++)
 		{	JOB j ; long i, items ; int B ;
 			if (chs [c] > 17 && k > 0) continue ;
 			if (!vh_case ("%s ch=%d job=%d", vh_fname (format), chs [c], k)) continue ;
